@@ -352,6 +352,23 @@ def generate():
                                                "(self._distinguishers() == them._distinguishers())"], cls + ".__eq__")
         need(P.find_def(rm, cls + ".__hash__"), ["return hash(self._distinguishers())"], cls + ".__hash__")
         need(P.find_def(rm, cls + ".__ne__"), ["return not self == them"], cls + ".__ne__")
+    # the copy path (a SturdyRef that ARRIVES): only the four attributes of the model's record are taken from the state
+    scs = P.find_def(rm, "SturdyRef.setCopyableState")
+    loops = [n for n in scs.body if isinstance(n, ast.For)]
+    if len(loops) != 1 or len([n for n in scs.body if not (isinstance(n, ast.Expr) and isinstance(n.value, ast.Constant))]) != 1 \
+            or scs.decorator_list:
+        U("SturdyRef.setCopyableState is no longer a single loop over the accepted attribute names")
+    try:
+        accepted = P.const_expr(loops[0].iter)
+    except P.Untranslatable:
+        U("SturdyRef.setCopyableState: the accepted attribute names are not a literal tuple")
+    if " ".join(ast.unparse(loops[0]).split()) != " ".join(
+            ("for k in %s:\n    if k in state:\n        setattr(self, k, state[k])" % ast.unparse(loops[0].iter)).split()):
+        U("SturdyRef.setCopyableState no longer copies exactly the accepted attributes")
+    attr_field = {"url": "FUrl", "tubID": "FTubID", "locationHints": "FHints", "name": "FName"}
+    if sorted(accepted) != sorted(attr_field):
+        U("SturdyRef.setCopyableState accepts %r; the model's record has url, tubID, locationHints, name" % (accepted,))
+    out.append("Definition sturdyref_copied_fields : list idfield := [%s]." % "; ".join(attr_field[a] for a in accepted))
     need(P.find_def(rm, "SturdyRef.__init__"), ["self.tubID, self.locationHints, self.name = decode_furl(url)"],
          "SturdyRef.__init__")
 
@@ -406,4 +423,36 @@ def generate():
               "d = defer.maybeDeferred(plugin.hint_to_endpoint, hint, reactor, _update_status)",
               "return defer.maybeDeferred(_try)"], "get_endpoint")
     out.append("Definition HINT_TYPE_SEP : Z := %d." % ord(":"))
+
+    # ---- pb.py Tub.getBrokerForTubRef / connectionFailed: the connector table (model: lib/Connector.v)
+    pm = P.load("pb.py")
+    gb = P.find_def(pm, "Tub.getBrokerForTubRef")
+    guards = [n for n in ast.walk(gb) if isinstance(n, ast.If) and ast.unparse(n.test) == "tubref not in self.tubConnectors"]
+    if len(guards) != 1 or guards[0].orelse:
+        U("getBrokerForTubRef: expected exactly one `if tubref not in self.tubConnectors:` without else")
+    body = guards[0].body
+    stores = [i for i, st in enumerate(body) if isinstance(st, ast.Assign) and ast.unparse(st.targets[0]) == "self.tubConnectors[tubref]"
+              and ast.unparse(st.value) == "c"]
+    connects = [i for i, st in enumerate(body) if isinstance(st, ast.Expr) and ast.unparse(st.value) == "c.connect()"]
+    makes = [i for i, st in enumerate(body) if isinstance(st, ast.Assign) and ast.unparse(st.targets[0]) == "c"
+             and ast.unparse(st.value) == "connection.TubConnector(self, tubref, self._connectionHandlers)"]
+    if len(stores) != 1 or len(connects) != 1 or len(makes) != 1 or len(body) != 3:
+        U("getBrokerForTubRef: the new-connector branch is no longer {c = TubConnector(..); store; c.connect()} in some order")
+    out.append("(* is the new connector stored in tubConnectors before connect() can fail synchronously? *)")
+    out.append("Definition connector_stored_before_connect : bool := %s." % ("true" if stores[0] < connects[0] else "false"))
+    need(gb, ["if tubref in self.brokers: return defer.succeed(self.brokers[tubref])",
+              "d = defer.Deferred()",
+              "self.waitingForBrokers[tubref].append(d)",
+              "return d"], "Tub.getBrokerForTubRef")
+    cf = P.find_def(pm, "Tub.connectionFailed")
+    need(cf, ["if tubref in self.tubConnectors: del self.tubConnectors[tubref]",
+              "if tubref in self.waitingForBrokers:",
+              "del self.waitingForBrokers[tubref]"], "Tub.connectionFailed")
+    ccls = P.find_class(cm, "TubConnector")
+    cconsts = P.module_consts(cm, body=ccls.body)
+    if not isinstance(cconsts.get("CONNECTION_TIMEOUT"), int) or cconsts["CONNECTION_TIMEOUT"] <= 0:
+        U("TubConnector.CONNECTION_TIMEOUT is not a positive integer literal")
+    out.append("Definition CONNECTION_TIMEOUT : Z := %d." % cconsts["CONNECTION_TIMEOUT"])
+    need(P.find_def(cm, "TubConnector.connect"), ["self.timer = reactor.callLater(timeout, self.connectionTimedOut)",
+                                                   "self.active = True", "self.connectToAll()"], "TubConnector.connect")
     return {"FurlGen.v": "\n".join(out) + "\n"}
